@@ -148,6 +148,17 @@ CLAIMS = {
               "exercised, not modelled; repository/linter-level ignore patterns are C14/C09's subject."),
         technique="Lean 4 proof (invariant induction over the line scan; decide over regenerated tables and the 64-cell matrix) + engine and CLI differential runs",
         ref="DESIGN.md §3 C04"),
+    "C16": dict(
+        text=("Kernel-checked theorems about the SRP decision logic for all counts, limits and switches: reported iff methods > max_methods "
+              "or lines > max_loc or (keyword checking on and keyword in name); exactly on a limit is not reported and one above is; the "
+              "message lists exactly the exceeded criteria with the counts, each once; more permissive thresholds never add a report; only "
+              "countable members change the method count; blank/comment lines never change the Python/Rust size (and do change the "
+              "TypeScript span); language overrides apply only to their language. The counting functions and from_dict are executed by the "
+              "Lean driver on generated class descriptions and compared with `thailint srp` (line, full message, exit code)."),
+        note=("What counts as a public method per language is the implementation's notion, mirrored in `countable`; parsers trusted; "
+              "nested classes only as separate top-level-like classes."),
+        technique="Lean 4 proof (case analysis of the decision list, list filter lemmas) + differential check on generated classes",
+        ref="DESIGN.md §3 C16"),
 }
 ALL = [f"C{n:02d}" for n in range(1, 21)]
 NOT_YET = "machinery for this property is not built yet in this revision of /verif (planned, see DESIGN.md §3); not claimed"
